@@ -107,6 +107,8 @@ def show(n, depth=0):
         return "%s.%s" % (show(b), n["n"])
     if k == "DMem":
         b = n.get("b")
+        if n.get("qual") and (b is None or b.get("k") == "This"):
+            return n["qual"] + n["n"]
         if b is None or b.get("k") == "This":
             return "this." + n["n"]
         return "%s.%s" % (show(b), n["n"])
